@@ -420,6 +420,35 @@ def task_boundary_records(pr, repo, tag):
                          keep_protons_cases=(False,), what='C05 part boundary')
 
 
+def task_common_centres(pr, repo):
+    """CX: with common_charge_centre switched on, the shared centre of a covalently coupled system is the mean of the centres of THAT
+    system's groups - coupled groups elsewhere in the structure do not enter, and groups of other systems keep their own."""
+    ex = Executor(repo)
+    CC_ = 'propka.conformation_container.ConformationContainer'
+    fi = repo.func(CC_ + '.set_common_charge_centres')
+    pr.under_contract(fi)
+    Gc = repo.cls('propka.group.Group')
+
+    def thunk(ex, ctx):
+        gs = [record('g%d' % i, Gc, x=R('x%d' % i), y=R('y%d' % i), z=R('z%d' % i), common_charge_centre=False) for i in range(5)]
+        before = [[g.attrs[c] for c in 'xyz'] for g in gs]
+        systems = [[gs[0], gs[1]], [gs[2], gs[3], gs[4]]]
+        ex.contracts[CC_ + '.get_coupled_systems'] = lambda ex, ctx_, fi_, a, k, so: [list(s_) for s_ in systems]
+        ex.contracts[CC_ + '.get_covalently_coupled_groups'] = lambda ex, ctx_, fi_, a, k, so: list(gs)
+        conf = record('conf', repo.cls(CC_), groups=list(gs))
+        ex.call_function(fi, [], self_obj=conf)
+        conj = []
+        for sysm in systems:
+            idx = [gs.index(g) for g in sysm]
+            for c in range(3):
+                mean_n = sum((before[i][c] for i in idx[1:]), before[idx[0]][c])
+                for i in idx:
+                    conj.append(gs[i].attrs['xyz'[c]] * len(idx) == mean_n)
+        ctx.oblige('CX: every group of a coupled system gets the mean centre of its OWN system (two systems of 2 and 3 groups, arbitrary '
+                   'centres) and is flagged', And(*conj) if all(g.attrs['common_charge_centre'] is True for g in gs) else False)
+    pr.explore(ex, thunk, 'set_common_charge_centres')
+
+
 def run(pr, repo):
     p = cfg.parameters()
     cuts = [p.desolv_cutoff, p.buried_cutoff, p.coulomb_cutoff1, p.coulomb_cutoff2, p.sidechain_cutoffs.default[1]]
@@ -429,7 +458,7 @@ def run(pr, repo):
     pr.parallel([(task_desolvation, ()), (task_set_determinants, ()), (task_ion_backbone_reorg, ()), (task_smallest, ()),
                  (task_iterative, ()), (task_iterative_sweeps, ()), (task_probe_far, ()), (C08.task_average_twins, ()), (task_coupled_systems, ()),
                  # a group's centre lies on its own atoms (never at a fixed point such as the origin, where another part may sit)
-                 (task_centres, ())] +
+                 (task_centres, ()), (task_common_centres, ())] +
                 # order of the parts in the file: the only state carried from one record to the next is the terminus search, and a
                 # TER record (in whatever layout) re-arms it - the record automaton of C01 for the non-ATOM records
                 [(task_boundary_records, (t,)) for t in ['TER   ', 'MODEL ', 'OTHER'] + sorted(reader.TER_SHORT)] + [(reader.task_nterm, ()), (task_squared_cutoffs, ())])
